@@ -271,6 +271,25 @@ def provenance(fi: FuncInfo, expr, at_stmt=None, depth=12):
                     continue
                 go(val, dn, chain, d - 1)
             return
+        if isinstance(e, ast.Call) and isinstance(e.func, ast.Name) and not e.keywords and not any(isinstance(a, ast.Starred) for a in e.args):
+            # a helper extracted from this function (it does not exist in the reviewed snapshot): what it returns, with
+            # its parameters replaced by the arguments, is what the call stands for
+            h = next((x for x in fi.new_helpers() if x.name == e.func.id and x.cls is None), None)
+            if h is not None and len(h.params) == len(e.args):
+                import copy as _copy
+
+                hlocals = {n.id for n in ast.walk(h.node) if isinstance(n, ast.Name) and isinstance(n.ctx, ast.Store)}
+                rets = [r.value for r in ast.walk(h.node) if isinstance(r, ast.Return) and r.value is not None]
+                if rets and not any(isinstance(n, ast.Name) and n.id in hlocals for r in rets for n in ast.walk(r)):
+                    sub = dict(zip(h.params, e.args))
+
+                    class _S(ast.NodeTransformer):
+                        def visit_Name(self, n):
+                            return _copy.deepcopy(sub[n.id]) if n.id in sub and isinstance(n.ctx, ast.Load) else n
+
+                    for r in rets:
+                        go(_S().visit(_copy.deepcopy(r)), at, chain, d - 1)
+                    return
         if isinstance(e, ast.Call):
             name = dotted(e.func) or u(e.func)
             for a in e.args:
